@@ -343,15 +343,10 @@ func vOrchestrate(id, tier, verifDir string, seed int64, triage bool) int {
 		k := int(uint64(seed) % uint64(len(order)))
 		order = append(order[k:], order[:k]...)
 	}
-	// budget per shard: waves of `par` shards share the wall-clock budget
-	waves := (len(shards) + par - 1) / par
-	if waves < 1 {
-		waves = 1
-	}
-	per := int(budget.Seconds()) / waves
-	if per < 5 {
-		per = 5
-	}
+	// all shards share one wall-clock deadline; expensive shards (store / scheduler
+	// scenarios) are started first, each worker gets the time remaining at its launch
+	sort.SliceStable(order, func(i, j int) bool { return vShardWeight(shards[order[i]].Name) > vShardWeight(shards[order[j]].Name) })
+	deadline := t0.Add(budget)
 	results := make([]*vResult, len(shards))
 	var wg sync.WaitGroup
 	sem := make(chan struct{}, par)
@@ -364,6 +359,10 @@ func vOrchestrate(id, tier, verifDir string, seed int64, triage bool) int {
 		go func(i int) {
 			defer wg.Done()
 			defer func() { <-sem }()
+			per := int(time.Until(deadline).Seconds())
+			if per < 10 {
+				per = 10
+			}
 			cmd := exec.Command(self, "worker", id, tier, strconv.Itoa(i), strconv.Itoa(per))
 			cmd.Env = append(os.Environ(), "GOMAXPROCS=1")
 			cmd.Stderr = os.Stderr
@@ -532,6 +531,21 @@ func vOrchestrate(id, tier, verifDir string, seed int64, triage bool) int {
 	fmt.Printf("%s %s: states=%d transitions=%d evaluations=%d nontrivial=%d outcomes=%d exhaustive=%v violations=%d known=%d wall=%.1fs\n",
 		id, tier, tot.States, tot.Transitions, tot.Evaluations, tot.Nontrivial, tot.Outcomes, tot.Exhaustive, nViol, len(knownHit), time.Since(t0).Seconds())
 	return exit
+}
+
+// vShardWeight orders shards by expected cost (heaviest first).
+func vShardWeight(name string) int {
+	switch {
+	case strings.Contains(name, "sched/store/"):
+		return 5
+	case strings.Contains(name, "close-use"), strings.HasPrefix(name, "c08/"):
+		return 4
+	case strings.HasPrefix(name, "sched/"):
+		return 3
+	case strings.Contains(name, "hnsw"), strings.Contains(name, "racepass"):
+		return 2
+	}
+	return 1
 }
 
 func tail(s string, n int) string {
